@@ -172,3 +172,8 @@ def html_highlights(cell):
                          cell, re.S):
         out.append(html_text(m.group(1)))
     return out
+
+
+def linecol(tex, off):
+    """1-based line and column of the 0-based offset"""
+    return (tex.count('\n', 0, off) + 1, off - (tex.rfind('\n', 0, off) + 1) + 1)
